@@ -236,6 +236,16 @@ fn js_dump(d: &Dump) -> serde_json::Value {
     })
 }
 /// the dump with edges re-sorted by type NAME (ids differ between a bulk-loaded and a transactionally loaded db)
+fn by_name_edges(d: &Dump) -> Dump {
+    let mut x = d.clone();
+    for v in [&mut x.out, &mut x.inn] {
+        for e in v.iter_mut() {
+            e.rel_id = 0;
+        }
+        v.sort_by_key(|e| (e.s, e.t, e.d));
+    }
+    x
+}
 fn by_name(d: &Dump) -> Dump {
     let mut x = d.clone();
     for v in [&mut x.out, &mut x.inn] {
@@ -823,13 +833,13 @@ impl Gen {
                 self.eprops.remove(&(e, k));
                 Op::RemEP { s: e.0, t: e.1, d: e.2, k }
             }
-            68..=76 => {
+            68..=73 => {
                 let e = pick_edge(self, r)?;
                 self.edges.remove(&e);
                 self.eprops.retain(|p| p.0 != e);
                 Op::TombEdge { s: e.0, t: e.1, d: e.2 }
             }
-            77..=82 => {
+            74..=76 => {
                 let nd = *r.pick(&live);
                 self.nodes[nd as usize] = false;
                 self.edges.retain(|e, _| e.0 != nd && e.2 != nd);
@@ -837,8 +847,8 @@ impl Gen {
                 self.nprops.retain(|p| p.0 != nd);
                 Op::TombNode { n: nd }
             }
-            83..=89 => Op::AddLabel { n: *r.pick(&live), l: r.below(3) as u32 },
-            90..=94 => Op::RemLabel { n: *r.pick(&live), l: r.below(3) as u32 },
+            77..=86 => Op::AddLabel { n: *r.pick(&live), l: r.below(3) as u32 },
+            87..=94 => Op::RemLabel { n: *r.pick(&live), l: r.below(3) as u32 },
             _ => {
                 if fl.vectors {
                     Op::SetVec { n: *r.pick(&live), v: r.below(4) as u8 }
@@ -881,7 +891,7 @@ fn gen_history(r: &mut Rng, fl: &Flavor) -> Vec<Hop> {
         let commit = r.below(100) < fl.commit_pct;
         let saved = g.clone();
         let mut ops = Vec::new();
-        if fl.c14_patterns && r.chance(1, 4) {
+        if fl.c14_patterns && r.chance(1, 8) {
             ops = g.c14_pattern(r);
         }
         let nops = 1 + r.below(5) as usize;
@@ -1052,9 +1062,6 @@ fn classes(hw: &[HW]) -> Classes {
             }
             _ => {}
         }
-        if is_reopen(h) {
-            recreate_pending = recreate_pending; // runs are replayed as they were
-        }
     }
     c
 }
@@ -1072,6 +1079,10 @@ enum Kind {
 }
 /// how two dumps differ (a = observed, b = expected)
 fn diff_kinds(a: &Dump, b: &Dump) -> BTreeSet<Kind> {
+    // relationship-type ids may differ between two runs (names are registered in call order,
+    // also by abandoned transactions): compare the name-sorted form
+    let (na, nb) = (by_name_edges(a), by_name_edges(b));
+    let (a, b) = (&na, &nb);
     let mut k = BTreeSet::new();
     if a.panic.is_some() || b.panic.is_some() {
         k.insert(Kind::Panic);
@@ -1116,13 +1127,13 @@ fn diff_kinds(a: &Dump, b: &Dump) -> BTreeSet<Kind> {
 fn classify(c: &Classes, kinds: &BTreeSet<Kind>) -> Option<&'static str> {
     use Kind::*;
     let table: Vec<(bool, &'static str, Vec<Kind>)> = vec![
+        (c.labels, "K-C04-labels", vec![Labels]),
         (c.eprops, "K-C06-eprops", vec![EProps]),
-        (c.samerun, "K-C14-samerun", vec![EdgeSet, EProps]),
-        (c.tomb, "K-C05-tomb", vec![NodeSet, EdgeSet, EProps, NProps, Labels]),
+        (c.samerun, "K-C14-samerun", vec![EdgeSet]),
         (c.remove, "K-C05-remove", vec![NProps, EProps]),
         (c.dups, "K-C05-dups", vec![NProps, EProps]),
-        (c.recreate, "K-C05-recreate", vec![EdgeSet, EProps]),
-        (c.labels, "K-C04-labels", vec![Labels]),
+        (c.recreate, "K-C05-recreate", vec![EdgeSet]),
+        (c.tomb, "K-C05-tomb", vec![NodeSet, EdgeSet]),
         (c.vector, "K-C07-vector", vec![Vector]),
     ];
     let mut allowed: BTreeSet<Kind> = BTreeSet::new();
@@ -1149,10 +1160,14 @@ fn txn_steps(h: &[Hop]) -> Vec<usize> {
 // ---------------------------------------------------------------- main
 fn write_case(cw: &mut CaseWriter, hw: &[HW], dumps: &[Dump], refs: &[Dump]) {
     cw.push(format!(
-        "{{| hist := {}; impl_dumps := {}; ref_dumps := {} |}}",
+        "{{| hist := {}; impl_dumps := {}; ref_dumps := {}; impl_classes := {} |}}",
         coq_list(hw, coq_hw),
         coq_list(dumps, coq_dump),
-        coq_list(refs, coq_dump)
+        coq_list(refs, coq_dump),
+        {
+            let c = classes(hw);
+            coq_list(&[c.eprops, c.samerun, c.tomb, c.remove, c.dups, c.recreate, c.labels, c.vector], |b| coq_bool(*b).to_string())
+        }
     ));
 }
 
@@ -1211,7 +1226,7 @@ fn main() {
         return;
     }
     let fl = match prop.as_str() {
-        "C06" => Flavor { commit_pct: 100, maint_pct: 0, compact: false, reopen: false, vectors: false, c14_patterns: true, malformed_pct: 5 },
+        "C06" => Flavor { commit_pct: 100, maint_pct: 0, compact: false, reopen: false, vectors: false, c14_patterns: false, malformed_pct: 5 },
         "C05" => Flavor { commit_pct: 100, maint_pct: 40, compact: true, reopen: false, vectors: false, c14_patterns: false, malformed_pct: 0 },
         "C04" => Flavor { commit_pct: 90, maint_pct: 45, compact: true, reopen: true, vectors: false, c14_patterns: false, malformed_pct: 0 },
         "C07" => Flavor { commit_pct: 65, maint_pct: 15, compact: true, reopen: true, vectors: true, c14_patterns: false, malformed_pct: 3 },
@@ -1611,7 +1626,9 @@ mod c30 {
                 for e in &es {
                     seen.entry((e.0, e.1, e.2)).or_default().push(&e.3);
                 }
-                let dup_props = seen.values().any(|v| v.len() > 1 && v.iter().any(|p| !p.is_empty()));
+                let dup_props = seen.values().any(|v| {
+                    (0..3u8).any(|k| v.iter().filter(|p| p.iter().any(|kv| kv.0 == k)).count() > 1)
+                });
                 let cls = if dup_props && k.iter().all(|x| *x == Kind::EProps) { Some("K-C30-parallel-props") } else { None };
                 *hist.entry(format!("fail:{}", cls.unwrap_or("UNKNOWN"))).or_insert(0) += 1;
                 rep.fail(idx, cls, &format!("bulk-loaded and transactionally loaded databases differ in {:?}: bulk {} txn {}", k, js_dump(&bulk_dump), js_dump(&txn_dump)), input.clone());
